@@ -3,7 +3,6 @@ package main
 import (
 	"go/token"
 	"go/types"
-	"strings"
 
 	"golang.org/x/tools/go/ssa"
 )
@@ -35,6 +34,10 @@ func c02(c *Ctx) {
 	r.Floor("C02.R5", 5)
 	r.Floor("C02.R6", 1)
 	gt := guardType(p)
+	roles := p.patchRoles()
+	for _, prob := range roles.Problems {
+		r.Und("C02.R4", "patch roles: "+prob, "", "cannot identify the patch package's fields by role: "+prob)
+	}
 	inst := patchInstaller(p)
 	if gt == nil || inst == nil {
 		r.Und("C02.R1", "patch.Guard / installer", "", "anchors not found")
@@ -56,15 +59,28 @@ func c02(c *Ctx) {
 			} else {
 				nInstall++
 			}
-			okA := allAtoms(s.Addr, func(a Atom) bool { return a.Kind == "field" && strings.HasSuffix(a.Name, "Guard.origin") })
-			okD := allAtoms(s.Data, func(a Atom) bool {
-				return a.Kind == "field" && (strings.HasSuffix(a.Name, "Guard.originBytes") || strings.HasSuffix(a.Name, "Guard.jumpBytes"))
-			})
+			isFld := func(a Atom, want ...*types.Var) bool {
+				if a.Kind != "field" {
+					return false
+				}
+				_, fv, ok := fieldRef(a.V)
+				if !ok {
+					return false
+				}
+				for _, w := range want {
+					if fv == w && w != nil {
+						return true
+					}
+				}
+				return false
+			}
+			okA := allAtoms(s.Addr, func(a Atom) bool { return isFld(a, roles.GOrigin) })
+			okD := allAtoms(s.Data, func(a Atom) bool { return isFld(a, roles.GRestore, roles.GInstall) })
 			r.Check(okA && okD, "C02.R3", cons+" ("+s.Kind+")", p.Pos(posOf(s.Call)), "writes "+atomsString(s.Data)+" at "+atomsString(s.Addr),
 				"an entry write does not write the guard's own bytes at the guard's origin")
 			// guarded by the applied flag for restore
 			if s.Kind == "restore" {
-				af := structField(gt, "applied")
+				af := roles.GApplied
 				okG := false
 				if af != nil {
 					if v, k := boolGuardOnField(s.Call.Block(), af); k && v {
@@ -180,18 +196,23 @@ func c02(c *Ctx) {
 	}
 
 	// ---- R4 guard fields written once, in the constructor, from the patch's fields
-	gfields := map[string]string{"origin": "originPtr", "originBytes": "originBytes", "jumpBytes": "jumpBytes"}
-	for gname, pname := range gfields {
-		gf := structField(gt, gname)
-		if gf == nil {
-			r.Und("C02.R4", "Guard."+gname, "", "field not found")
-			continue
+	gfields := []struct {
+		role   string
+		gf, pf *types.Var
+	}{{"origin", roles.GOrigin, roles.POrigin}, {"original bytes", roles.GRestore, roles.PRestore}, {"jump bytes", roles.GInstall, roles.PInstall}}
+	for _, gfe := range gfields {
+		gf, pfWant, gname, pname := gfe.gf, gfe.pf, gfe.role, gfe.role
+		if gf == nil || pfWant == nil {
+			continue // reported above as unresolved role
 		}
 		sts := storesToField(p.Funcs, func(fv *types.Var, _ ssa.Value) bool { return fv == gf })
 		for _, fs := range sts {
 			cons := "store to Guard." + gname + " in " + shortName(fs.Fn)
 			inCtor := isLocalAddr(fs.Addr.X)
-			okSrc := allAtoms(origins(fs.Store.Val), func(a Atom) bool { return a.Kind == "field" && strings.HasSuffix(a.Name, "patch."+pname) })
+			okSrc := allAtoms(origins(fs.Store.Val), func(a Atom) bool {
+				_, fv, ok := fieldRef(a.V)
+				return a.Kind == "field" && ok && fv == pfWant
+			})
 			r.Check(inCtor && okSrc, "C02.R4", cons, p.Pos(posOf(fs.Store)), "constructor copies patch."+pname,
 				"Guard."+gname+" is assigned outside the guard constructor or from something other than patch."+pname+": the bytes restored / address restored to are not the captured ones")
 		}
@@ -201,10 +222,12 @@ func c02(c *Ctx) {
 	}
 	// the guard is built once per patch (cached) or always from the same patch
 	// ---- R1 pristine capture provenance
-	pt := p.NamedType("internal/patch", "patch")
-	ob := structField(pt, "originBytes")
-	jb := structField(pt, "jumpBytes")
-	op := structField(pt, "originPtr")
+	ob := roles.PRestore
+	jb := roles.PInstall
+	op := roles.POrigin
+	if ob == nil || op == nil {
+		return
+	}
 	var captureCall *ssa.Call
 	for _, fs := range storesToField(patchFns, func(fv *types.Var, _ ssa.Value) bool { return fv == ob }) {
 		if isLocalAddr(fs.Addr.X) {
